@@ -217,9 +217,60 @@ pub fn gen_same_text_two_scopes(t: &mut Tape) -> (Program, ProgInfo) {
     (Program { isa, items }, info)
 }
 
+/// v4 directed template: a constant that merely ALIASES a label which moves after the first pass, and a second constant
+/// computed from the first (both declared in file order, behind the label), read by a fixed-size instruction and a data
+/// directive:    lag far / table: / #d8 .. / qa = table / qb = qa + 4 / jq qb / #d8 qb / #res K / far:
+pub fn gen_constant_through_alias_of_moving_label(t: &mut Tape) -> (Program, ProgInfo) {
+    let zeros = [0u32; 4];
+    let (base, _) = gen_lagging_constant(&mut Tape::new(&zeros));
+    let mut isa = IsaGen { size_static: false, asserts: true }.gen(t);
+    for r in base.isa.blocks[0].rules.iter().filter(|r| r.mnemonic == "lag") {
+        isa.blocks[0].rules.push(r.clone());
+    }
+    let lit = crate::gen::expr::lit_of;
+    isa.blocks[0].rules.push(Rule {
+        mnemonic: "jq".into(),
+        ops: vec![PatOp { wrap: Wrap::None, op: POp::Param { name: "p0".into(), ty: PType::Untyped } }],
+        prod: crate::gen::isa::concat_all(vec![crate::gen::isa::sized_lit(0x40, 8), E::SliceShort(Box::new(E::Var("p0".into())), Box::new(lit(16)))]),
+        size: 24,
+    });
+    let mut items: Vec<Item> = Vec::new();
+    let label_after = t.chance(1, 4);
+    for _ in 0..t.urange(1, 3) {
+        items.push(Item::Instr(Instr { mnemonic: "lag".into(), ops: vec![InsOp { wrap: Wrap::None, op: IOp::Word("far".into()) }] }));
+    }
+    if !label_after {
+        items.push(Item::Label { dots: 0, name: "table".into() });
+    }
+    for k in 0..t.draw(4) as u64 {
+        items.push(Item::Data { width: Some(8), elems: vec![lit(k + 1)] });
+    }
+    items.push(Item::Const { dots: 0, name: "qa".into(), e: E::Var("table".into()), noemit: false });
+    let qb = match t.draw(3) {
+        0 => E::Bin(BinOp::Add, Box::new(E::Var("qa".into())), Box::new(lit(4))),
+        1 => E::Bin(BinOp::Mul, Box::new(E::Var("qa".into())), Box::new(lit(2))),
+        _ => E::Var("qa".into()),
+    };
+    items.push(Item::Const { dots: 0, name: "qb".into(), e: qb, noemit: false });
+    if t.flip() {
+        items.push(Item::Const { dots: 0, name: "qc".into(), e: E::Bin(BinOp::Add, Box::new(E::Var("qb".into())), Box::new(lit(1))), noemit: false });
+        items.push(Item::Data { width: Some(8), elems: vec![E::Var("qc".into())] });
+    }
+    items.push(Item::Instr(Instr { mnemonic: "jq".into(), ops: vec![InsOp { wrap: Wrap::None, op: IOp::Word("qb".into()) }] }));
+    items.push(Item::Data { width: Some(8), elems: vec![E::Var("qb".into())] });
+    if label_after {
+        items.push(Item::Label { dots: 0, name: "table".into() });
+    }
+    items.push(Item::Res(lit(*t.pick(&[0u64, 8, 0x40]))));
+    items.push(Item::Label { dots: 0, name: "far".into() });
+    items.push(Item::Data { width: Some(8), elems: vec![lit(0xbb)] });
+    let info = ProgInfo { n_instr: 3, symbol_operands: 3, forward_refs: true, ..Default::default() };
+    (Program { isa, items }, info)
+}
+
 pub fn gen_cascade(t: &mut Tape, max_items: usize) -> (Program, ProgInfo) {
     if crate::engine::gen_version() >= 4 && t.chance(1, 24) {
-        return gen_same_text_two_scopes(t);
+        return if t.flip() { gen_same_text_two_scopes(t) } else { gen_constant_through_alias_of_moving_label(t) };
     }
     if crate::engine::gen_version() >= 3 && t.chance(1, 16) {
         return match t.draw(3) {
@@ -628,7 +679,7 @@ impl Property for C02 {
          certificate check on whatever state the assembler claims: instruction sizes are read from output.spans, the layout and every label are recomputed from them, \
          every instruction's syntactic survivors are evaluated with the FINAL symbol values at its ACTUAL address, failed constraints discarded, and the unique smallest \
          encoding must have the claimed size and equal the emitted bits; bits, length and symbols must equal the recomputation; a #res / #align / #addr whose amount depends on the layout itself (a constant defined from labels further down) takes the position the assembler gives the next item and must evaluate to exactly that amount with the final symbols (directed templates: a lagging constant; a statically known prefix followed by such a directive, a label and a short/long instruction naming it; a constant whose WIDTH depends on a label behind the instruction that reads it through forward constants). An error outcome is accepted. \
-         (v4) one case in 24 is the template same-text-in-two-scopes: `lit .len` under two global labels, a literal constant in the first scope, `.len = $ - second` behind 1-8 short/long instructions in the second, with the width cascade `lit {x: u4}` / `lit {x: u8}`. \
+         (v4) one case in 24 is one of two templates - a constant computed from a constant that aliases a label which moves after the first pass (`qa = table / qb = qa + 4 / jq qb / #d8 qb` behind short/long instructions), or same-text-in-two-scopes: `lit .len` under two global labels, a literal constant in the first scope, `.len = $ - second` behind 1-8 short/long instructions in the second, with the width cascade `lit {x: u4}` / `lit {x: u8}`. \
          Non-trivial = success with an instruction whose emitted size differs from the largest candidate size, or >= 3 passes; distinct by hash of source."
             .to_string()
     }
